@@ -7,7 +7,8 @@ From OV Require Import Base.Panic Base.Arith Model.Vector Model.Matrix Model.Spa
 From OV Require Import Proofs.SparseBase Proofs.SparseMul Proofs.IterSparse Proofs.IterSparseErr Proofs.IterSparseR
   Proofs.IterSparseBreakdown Proofs.IterCGExamples.
 From OV Require Import Proofs.SparseBase Proofs.SparseMul Proofs.IterR Proofs.IterSparse Proofs.IterSparseR Proofs.IterSparseBreakdown Proofs.IterSparseBreakdownField Proofs.IterSparseBreakdownQMR Proofs.IterSparseBreakdownTri
-  Proofs.IterCGVec Proofs.IterCGDim Proofs.IterCG Proofs.IterCGR Proofs.IterCGBi Proofs.IterCGSparse Proofs.IterCGDominant Proofs.IterCGExamples.
+  Proofs.IterCGVec Proofs.IterCGDim Proofs.IterCG Proofs.IterCGR Proofs.IterCGBi Proofs.IterCGSparse Proofs.IterCGDominant Proofs.IterCGOneStep Proofs.IterCGOneStepR
+  Proofs.IterCGExamples.
 Import ListNotations.
 Module C08.
 (* the hypothesis LinOp of ok_means_solved / residual_invariant_* / exact_guess_ok0 discharged for EVERY well-formed square
@@ -620,6 +621,65 @@ Check bicg_terminates_sdd_sparse_R : forall (s : sparse AR) itol (b x0 : list R)
 Print Assumptions bicg_terminates_sdd_sparse_R.
 Example bicg_terminates_sdd_sparse_R_nonvacuous : wfS exr_s /\ sp_rows exr_s = sp_cols exr_s /\ sp_symmetric exr_s /\ sp_sdd_pos exr_s.
 Proof. split; [exact exr_s_wf|]. split; [reflexivity|]. split; [exact exr_s_sym | exact exr_s_sdd]. Qed.
+
+(* the positive counterpart of the left-eigenvector breakdowns, ALL FOUR solvers, over R: if the initial residual is a (right) eigenvector of A
+   with a nonzero eigenvalue, the first step lands on the exact solution x0 + r0/lam and the solver answers Ok within ONE iteration -- for every
+   tol >= 0 and every budget >= 1 (A arbitrary otherwise: nonsymmetric, indefinite; mulAT only has to be total) *)
+Theorem eigen_start_converges_R : forall n (mulA mulAT : list R -> res (list R)), @LinOp AR n mulA ->
+  (forall v, length v = n -> exists w, mulAT v = Ok w /\ length w = n) ->
+  forall sv (b x0 ax : list R) (lam : R) max (tol : R),
+  (forall itol, sv = BiCG itol -> itol = 1 \/ itol = 2) ->
+  length b = n -> length x0 = n -> mulA x0 = Ok ax ->
+  let r0 := @zipw AR Rminus b ax in
+  mulA r0 = Ok (@vscale AR r0 lam) -> lam <> 0%R -> (0 <= tol)%R -> 1 <= max ->
+  exists k x g, @run SAR mulA mulAT n n sv b x0 max tol = Ok (IOk k, x, g) /\ k <= 1.
+Proof. intros n mulA mulAT LO TOT sv b x0 ax lam max tol. exact (eigen_start_converges_R n mulA mulAT LO TOT sv b x0 ax lam max tol). Qed.
+Check eigen_start_converges_R : forall n (mulA mulAT : list R -> res (list R)), @LinOp AR n mulA ->
+  (forall v, length v = n -> exists w, mulAT v = Ok w /\ length w = n) ->
+  forall sv (b x0 ax : list R) (lam : R) max (tol : R),
+  (forall itol, sv = BiCG itol -> itol = 1 \/ itol = 2) ->
+  length b = n -> length x0 = n -> mulA x0 = Ok ax ->
+  let r0 := @zipw AR Rminus b ax in
+  mulA r0 = Ok (@vscale AR r0 lam) -> lam <> 0%R -> (0 <= tol)%R -> 1 <= max ->
+  exists k x g, @run SAR mulA mulAT n n sv b x0 max tol = Ok (IOk k, x, g) /\ k <= 1.
+Print Assumptions eigen_start_converges_R.
+
+(* for the implementation's matrix type.  Instance: the SAME matrix [[2,-1],[0,1]] on which QMR/BiCG break down for b = (2,-2), with b = (1,0) *)
+Theorem eigen_start_converges_sparse_R : forall sv (s : sparse AR) (b x0 : list R) (lam : R) max (tol : R),
+  wfS s -> sp_rows s = sp_cols s ->
+  (forall itol, sv = BiCG itol -> itol = 1 \/ itol = 2) ->
+  length b = sp_rows s -> length x0 = sp_rows s ->
+  let r0 := @zipw AR Rminus b (@sp_apply AR s x0) in
+  @sp_apply AR s r0 = @vscale AR r0 lam -> lam <> 0%R -> (0 <= tol)%R -> 1 <= max ->
+  exists k x g, @run_sparse SAR sv s b x0 max tol = Ok (IOk k, x, g) /\ k <= 1.
+Proof. intros sv s b x0 lam max tol. exact (eigen_start_converges_sparse_R sv s b x0 lam max tol). Qed.
+Check eigen_start_converges_sparse_R : forall sv (s : sparse AR) (b x0 : list R) (lam : R) max (tol : R),
+  wfS s -> sp_rows s = sp_cols s ->
+  (forall itol, sv = BiCG itol -> itol = 1 \/ itol = 2) ->
+  length b = sp_rows s -> length x0 = sp_rows s ->
+  let r0 := @zipw AR Rminus b (@sp_apply AR s x0) in
+  @sp_apply AR s r0 = @vscale AR r0 lam -> lam <> 0%R -> (0 <= tol)%R -> 1 <= max ->
+  exists k x g, @run_sparse SAR sv s b x0 max tol = Ok (IOk k, x, g) /\ k <= 1.
+Print Assumptions eigen_start_converges_sparse_R.
+Example eigen_start_converges_sparse_R_nonvacuous : wfS kr_s /\ sp_rows kr_s = sp_cols kr_s /\
+  (let r0 := @zipw AR Rminus [1%R; 0%R] (@sp_apply AR kr_s [0%R; 0%R]) in @sp_apply AR kr_s r0 = @vscale AR r0 2%R).
+Proof. split; [exact kr_s_wf|]. split; [reflexivity | exact kr_right_eigenvector]. Qed.
+
+(* (d) every 1 x 1 system a x = b with a <> 0: every solver answers Ok within one iteration, for every b, x0, tol >= 0, budget >= 1 *)
+Theorem one_by_one_converges_R : forall (mulA mulAT : list R -> res (list R)) (a : R) sv (b x0 : list R) max (tol : R),
+  @LinOp AR 1 mulA -> (forall v, length v = 1 -> exists w, mulAT v = Ok w /\ length w = 1) ->
+  mulA [1%R] = Ok [a] -> a <> 0%R ->
+  (forall itol, sv = BiCG itol -> itol = 1 \/ itol = 2) ->
+  length b = 1 -> length x0 = 1 -> (0 <= tol)%R -> 1 <= max ->
+  exists k x g, @run SAR mulA mulAT 1 1 sv b x0 max tol = Ok (IOk k, x, g) /\ k <= 1.
+Proof. intros mulA mulAT a sv b x0 max tol. exact (one_by_one_converges_R mulA mulAT a sv b x0 max tol). Qed.
+Check one_by_one_converges_R : forall (mulA mulAT : list R -> res (list R)) (a : R) sv (b x0 : list R) max (tol : R),
+  @LinOp AR 1 mulA -> (forall v, length v = 1 -> exists w, mulAT v = Ok w /\ length w = 1) ->
+  mulA [1%R] = Ok [a] -> a <> 0%R ->
+  (forall itol, sv = BiCG itol -> itol = 1 \/ itol = 2) ->
+  length b = 1 -> length x0 = 1 -> (0 <= tol)%R -> 1 <= max ->
+  exists k x g, @run SAR mulA mulAT 1 1 sv b x0 max tol = Ok (IOk k, x, g) /\ k <= 1.
+Print Assumptions one_by_one_converges_R.
 
 (* (3) ANY arithmetic (floats included), any products, any sizes.  The ghost exit code g_exit names the `return` taken (Model/Iter.v).
    BiCGSTAB: an Err is budget exhaustion (2), the `rho_1 == 0` exit (10) or the `omega == 0` exit (11), nothing else *)
